@@ -51,10 +51,18 @@ def unit(u, res):
     timeout_ms = u[-2]
     pr = checklib.Prover(res, timeout_ms, CVC5_RATE[0], random.Random(zlib.crc32(repr(u).encode()) ^ checklib.env_seed()))
     meta = C.meta
-    if kind == 'classify':
-        _, nxt, timeout_ms, seed = u
+    if kind in ('classify', 'classifyp'):
+        if kind == 'classifyp':
+            _, nxt, prefix, timeout_ms, seed = u
+        else:
+            _, nxt, timeout_ms, seed = u
+            prefix = ''
         VI = C.VI
-        toks = [C.token('Identifier', sstr('n'))]
+        # what stands before the identifier must not matter: nothing, an applied function, an operator, a separator, a prefix operator
+        pre_toks = {'': [], 'p': [C.token('Identifier', sstr('p'))], '1 +': [C.token('Int', Int(z3.BitVecVal(1, 64), True)), C.token('Plus')],
+                    '1 ;': [C.token('Int', Int(z3.BitVecVal(1, 64), True)), C.token('Semicolon')], '!': [C.token('Not')],
+                    'p q': [C.token('Identifier', sstr('p')), C.token('Identifier', sstr('q'))]}[prefix]
+        toks = pre_toks + [C.token('Identifier', sstr('n'))]
         cons = []
         slot = None
         if nxt == 'SLOT':
@@ -100,11 +108,11 @@ def unit(u, res):
             verdict, model = pr.prove('identifier followed by %s' % nxt, o.pc, claim)
             if verdict == 'sat':
                 tn = meta.enums['Token'][model.eval(slot, model_completion=True).as_long()][0] if slot is not None else nxt
-                src = 'n ' + (TOKEN_TEXT.get(tn) or {'Identifier': 'm', 'Float': '1.5', 'Int': '1', 'Boolean': 'true', 'String': '"s"', 'END': ''}[tn])
+                src = (prefix + ' ' if prefix else '') + 'n ' + (TOKEN_TEXT.get(tn) or {'Identifier': 'm', 'Float': '1.5', 'Int': '1', 'Boolean': 'true', 'String': '"s"', 'END': ''}[tn])
                 res.sat.append(dict(key='identifier classification before token %s' % tn, source=src, witness=src, classify=True,
                                     got=show_node(meta, o.value.fields[0], model) if o.value.variant == 0 else 'Err'))
         if len(res.samples) < 1:
-            res.samples.append(dict(unit='classify identifier followed by %s' % nxt, paths=len(outs)))
+            res.samples.append(dict(unit='classify identifier after `%s` followed by %s' % (prefix, nxt), paths=len(outs)))
     elif kind == 'callform':
         _, form, timeout_ms, seed = u
         cons = []
@@ -283,7 +291,10 @@ def replay_ce(ce):
         if ce.get('classify') or ce.get('callform'):
             probes = [('n(7)', [('n', ('Int', 7))]), ('n 7', [('n', ('Int', 7))]), ('n()', [('n', ('Empty',))]), ('n(7, "a")', [('n', ('Tuple', [('Int', 7), ('String', 'a')]))]),
                       ('m n 7', [('n', ('Int', 7)), ('m', ('Int', 7))]), ('n true', [('n', ('Boolean', True))]), ('n "s"', [('n', ('String', 's'))]), ('n 2.5', [('n', ('Float', 0x4004000000000000))]),
-                      ('n x', [('n', ('Int', 3))]), ('n + 1', []), ('n; 1', []), ('n, 1', []), ('n == 1', []), ('(n)', []), ('n * 2', []), ('n = 5', [])]
+                      ('n x', [('n', ('Int', 3))]), ('n + 1', []), ('n; 1', []), ('n, 1', []), ('n == 1', []), ('(n)', []), ('n * 2', []), ('n = 5', []),
+                      # the same classifications behind another identifier / operator / separator
+                      ('m n = 5', [('m', ('Empty',))]), ('m n += 1', [('m', ('Empty',))]), ('1 + n 7', [('n', ('Int', 7))]), ('1; n = 5; m n', [('m', ('Int', 5))]),
+                      ('m x', [('m', ('Int', 3))]), ('!n true', [('n', ('Boolean', True))]), ('m m n = 2', [('m', ('Empty',)), ('m', ('Empty',))])]
             text = ''.join(replay.case_text('p%d' % i, 'eval_with_context_mut', p, vars=[('n', ('Int', 1)), ('x', ('Int', 3))], funcs=[('n', 'log'), ('m', 'log')])
                            for i, (p, _) in enumerate(probes))
             out = replay.run_cases(text, prof)
@@ -345,6 +356,8 @@ def main():
     units = []
     for nxt in ['SLOT', 'END', 'Identifier', 'Float', 'Int', 'Boolean', 'String']:
         units.append(('classify', nxt, timeout_ms, seed))
+        for prefix in ('p', '1 +', '1 ;', '!', 'p q'):
+            units.append(('classifyp', nxt, prefix, timeout_ms, seed))
     for form in ['n(x)', 'n x', 'n()', 'n(x, y)', 'm n x', 'n 1', 'n "s"', 'n true', 'n 2.5', 'n(x) == 1']:
         units.append(('callform', form, timeout_ms, seed))
     cfgs = []
